@@ -336,7 +336,7 @@ Proof.
         intros p cx' Hr; try discriminate. inversion Hr; reflexivity. }
     cbn [negb] in H.
     destruct (inst_row_none pe pn row (log ++ [EvRow pos false])) as [inc [mv Hi]].
-    rewrite Hi in H.
+    cbn [inst_row_incl] in H. rewrite Hi in H.
     assert (Hbase : exists ev, log ++ [EvRow pos false] = log ++ ev /\ Forall untemplated_row ev).
     { exists [EvRow pos false]. split; [reflexivity|]. constructor; [exact I|constructor]. }
     destruct (end_check bt (rk row)).
@@ -384,13 +384,32 @@ Proof.
     destruct (rk r); reflexivity. }
   assert (H : forall bt pos cx log, parse_block pe pn rows fuel bt true pos cx log = parse_block pe' pn' rows fuel bt true pos cx log).
   { induction fuel as [|f IH]; intros bt pos cx log; cbn [parse_block]; [reflexivity|].
-    destruct (nth_error rows pos); [|reflexivity]. rewrite Hi.
+    destruct (nth_error rows pos); [|reflexivity]. cbn [inst_row_incl]. rewrite Hi.
     destruct (inst_row pe' pn' None s (log ++ [EvRow pos (negb true)])) as [l2 [[inc mv]|e]]; [|reflexivity].
     destruct (end_check bt (rk s)); try reflexivity. cbn [orb].
     destruct (rk s); try apply IH.
     - rewrite IH. destruct (parse_block pe' pn' rows f BFor true (S pos) cx l2) as [l3 [[p c3]|e]]; [apply IH|reflexivity].
     - rewrite IH. destruct (parse_block pe' pn' rows f BBlock true (S pos) cx l2) as [l3 [[p c3]|e]]; [apply IH|reflexivity]. }
   intros. rewrite H. split; reflexivity.
+Qed.
+
+(* a ROW whose include_if evaluates to "false": its other cell is never handed to the template
+   engine (the log gains at most the rendering of the inclusion cell itself), whatever it
+   contains — an unknown variable in it is not an error — and the row is reported excluded *)
+Theorem excluded_row_not_evaluated : forall pe pn cx r log pi s,
+  parse_as_string_m pe pn (Some cx) (r_inc r) = Ok pi ->
+  to_text pn pi = Ok s ->
+  str_eqb (lower (strip s)) [102; 97; 108; 115; 101]%N = true ->
+  exists mv, inst_row_incl pe pn (Some cx) r log = (log_render (Some cx) (r_inc r) log, Ok (false, mv)).
+Proof.
+  intros pe pn cx r log pi s Hp Ht Hf. unfold inst_row_incl. rewrite Hp, Ht, Hf.
+  unfold inst_row, log_render. cbn [renders andb r_inc r_main rk]. rewrite !parse_as_string_none.
+  cbn [to_include]. 
+  assert (Hinc : str_to_include (strip (show_cell cell_false)) = false) by (vm_compute; reflexivity).
+  rewrite Hinc.
+  destruct (rk r) eqn:Ek; unfold parse_m; rewrite ?parse_as_string_none; cbn [to_text];
+    try (eexists; reflexivity).
+  destruct (split_into_lists (strip (show_cell (r_main r)))) eqn:Es; cbn [to_entries]; eexists; reflexivity.
 Qed.
 
 (* ------------------------------------------------------------------ non-vacuity *)
